@@ -593,6 +593,42 @@ func runC11(c *Ctx, w *World, r *Report) {
 			})
 			// skipping only when dedup && p == prev: the non-append edge
 		}
+		// every exit hands back the list the loop built: a shortcut that answers on its own (e.g. for height 0) is
+		// outside all of the above, the dedup clause included
+		if bad == "" {
+			for _, ret := range returnsOf(fn) {
+				for _, src := range resolvePhi(ret.Results[0]) {
+					okSrc := false
+					switch x := src.(type) {
+					case *ssa.Call:
+						okSrc = len(appendedValues(x)) > 0
+					case *ssa.MakeSlice:
+						// the list the appends start from
+						if x.Referrers() != nil {
+							for _, ref := range *x.Referrers() {
+								switch y := ref.(type) {
+								case *ssa.Call:
+									if len(appendedValues(y)) > 0 && y.Common().Args[0] == ssa.Value(x) {
+										okSrc = true
+									}
+								case *ssa.Phi:
+									if y.Referrers() != nil {
+										for _, r2 := range *y.Referrers() {
+											if c2, ok := r2.(*ssa.Call); ok && len(appendedValues(c2)) > 0 && c2.Common().Args[0] == ssa.Value(y) {
+												okSrc = true
+											}
+										}
+									}
+								}
+							}
+						}
+					}
+					if !okSrc {
+						bad = "the return at " + w.InstrPos(ret) + " hands back " + fmtVal(w, src) + ", not the list the loop over the keys appends to: that exit skips the per-key conversion and the dedup rule"
+					}
+				}
+			}
+		}
 		r.Check(bad == "", "R-SAMEARG", n, w.Pos(fn.Pos()), bad, "for every key: p = PathOf(key, frombit, height); append unless dedup && p == prev; prev = p")
 	}
 }
